@@ -272,6 +272,16 @@ def build() -> Check:
 
 
 def _finish_executor_rules(ck, prog, pm):
+    # R9 the entry query (every operation asks it before anything else): judged on small scenarios evaluated on the code itself. It has to stop an
+    # operation whose nearest open enclosing context is orphaned - whatever lies between (contexts recorded SUCCEEDED that are only traversed again)
+    from sa.common import branch_query_scenarios
+    bq = branch_query_scenarios(prog, pm)
+    ck.analysed["entry_query_scenarios"] = len(bq)
+    wrong_stop = [f"{d}: {g}" for d, g, w in bq if w == "stops" and g != w]
+    entry_query_sound = bool(bq) and not wrong_stop
+    if bq:
+        ck.ob("R9.entry-query-stops-an-orphaned-branch", "state.py:ExecutionState.raise_if_in_orphaned_branch", not wrong_stop,
+              (f"{len(wrong_stop)}/{len(bq)} scenarios: " + wrong_stop[0]) if wrong_stop else f"{sum(1 for _d, _g, w in bq if w == 'stops')} orphan scenarios")
     # R5 / R6 from the executor table
     n_first = 0
     for name, ci in pm.executors.items():
@@ -308,7 +318,7 @@ def _finish_executor_rules(ck, prog, pm):
                 if first_eff is None:
                     continue
                 n_res += 1
-                gate = next((i for i, e in enumerate(evs) if e.kind in ("CKPT", "ORPHANCHECK")), None)
+                gate = next((i for i, e in enumerate(evs) if e.kind in ("CKPT", "ORPHANCHECK") or (e.kind == "BRANCHCHECK" and entry_query_sound)), None)
                 oc_ = [e for e in evs[:first_eff] if e.kind == "ORPHANCHECK"]
                 if oc_ and not any(e.data.get("id") == "operation_identifier.operation_id" and e.data.get("parent") == "operation_identifier.parent_id" for e in oc_) \
                         and not any(e.kind == "CKPT" for e in evs[:first_eff]):
@@ -334,7 +344,7 @@ def _finish_executor_rules(ck, prog, pm):
             if t.outcome not in ("return", "raise") or user_events(t, "user"):
                 continue
             n_tc += 1
-            if not any(e.kind in ("ORPHANCHECK", "CKPT") for e in t.events):
+            if not any(e.kind in ("ORPHANCHECK", "CKPT") or (e.kind == "BRANCHCHECK" and entry_query_sound) for e in t.events):
                 unasked.append(f"{ci2.name}[{st2}]")
     ck.analysed["terminal_cells_answered_from_record"] = n_tc
     ck.floor("terminal_cells_answered_from_record", n_tc, 10)
@@ -358,8 +368,11 @@ def _finish_executor_rules(ck, prog, pm):
             if ORPHAN_FQ in fqs:
                 n_h += 1
                 body = ast.Module(body=h.body, type_ignores=[])
-                touches = any(isinstance(c, ast.Call) and isinstance(c.func, ast.Attribute) and c.func.attr in ("complete_task", "fail_task", "complete", "fail", "set")
-                              for c in ast.walk(body))
+                # it may not book the branch (counters / branch state / timer); waking the thread that waits in execute() with the orphan exception itself
+                # is what lets a map/parallel that runs INSIDE an orphaned branch unwind instead of waiting for ever (g1_orphan #2)
+                touches = any(isinstance(c, ast.Call) and isinstance(c.func, ast.Attribute) and (
+                    c.func.attr in ("complete_task", "fail_task", "complete", "fail", "suspend", "suspend_with_timeout", "schedule_resume", "reset_to_pending")
+                    or (c.func.attr == "set" and "_completion_event" not in ast.unparse(c.func.value))) for c in ast.walk(body))
                 ck.ob("R5.orphan-handler-is-inert", fn_construct(fi), fi.name == "_on_task_complete" and not touches,
                       "OrphanedChildException handler outside the branch done-callback, or it changes counters/branch state", where=f"line {h.lineno}")
     ck.floor("orphan_handlers", n_h, 1)
